@@ -145,6 +145,12 @@ def inputs(ctx):
     cs = [P for P in curves.adversarial() if len(P) >= 5]
     cs += [c for c in curves.grid_curves(6, 3, spacings=(1, 2)) if rng.random() < (0.02 if ctx.quick else 0.2)]
     cs += [curves.random_curve(rng, 5, 60) for _ in range(150 if ctx.quick else 1500)]
+    # the same kinds of curves at tiny and huge magnitudes (valid curves; exposes absolute epsilons)
+    for _ in range(24 if ctx.quick else 200):
+        P = curves.random_curve(rng, 5, 40, kind=rng.choice([0, 2, 6]))
+        sc = rng.choice([2.0 ** -20, 1e-6, 2.0 ** 20, 1e7])
+        cs.append(P * sc)
+        cs.append(np.column_stack([P[:, 0] * sc, P[:, 1]]) if rng.random() < 0.5 else np.column_stack([P[:, 0], P[:, 1] * sc]))
     k = 0
     for P in cs:
         n = len(P)
